@@ -999,6 +999,7 @@ func (it *mapIter) next(in *Interp) Value {
 			c := 0
 			if len(rem) > 1 {
 				c = in.decideN(len(rem), "maporder")
+				in.P.usedMapOrder = true
 			}
 			j := rem[c]
 			it.order[it.pos], it.order[j] = it.order[j], it.order[it.pos]
